@@ -1,11 +1,11 @@
 // compile: clang++-14 -std=c++17 -O1 -DNDEBUG -I /repo/tooling/internal/cpp/include <this file> -o replay && ./replay
 // (drop -DNDEBUG to see the debug-build assertion)
-// property C16, violation key cc:ReadVarIntegerSlow:stale-after-empty-refill
-// ReadVarIntegerSlow (entry point ReadVarU64): load of 1 byte(s) at buffer offset 0 lies outside [data, buffer_end_ptr_): stale bytes are decoded after FillBuffer() delivered fewer bytes than the decoder consumes, the call returns normally instead of throwing EndOfStreamException and leaves buffer_ptr
-// spec: throw yardl::binary::EndOfStreamException
-// native observation (release build): ret 4613942354028552192 / drain 81818000000000000000000000000021000000000000004d98845f
-// debug build (no -DNDEBUG) with the operation repeated (args pre:23 ReadVarU64 ReadVarU64): exit -6 (assert(buffer_ptr_ <= buffer_end_ptr_) fails in the second call)
-#define BAKED_ARGS {"R", "12", "000000000000000000000000c0819081848184c040818180", "pre:23", "ReadVarU64", "drain"}
+// property C01, violation key cc:ReadVarIntegerFastFromArray:oob-gep
+// oob-gep in ReadVarIntegerFastFromArray < ReadVarInt64 < h_ReadVarU64 (%16 = getelementptr inbounds i8, i8* %15, i64 1, !dbg !106)
+// spec: ret 9223372036856906144
+// native observation (release build): ASan build: exit 1 ================================================================= ==19881==ERROR: AddressSanitizer: heap-buffer-overflow on address 0x60200000001c at pc 0x55742
+// memory-safety violation: add  -g -fsanitize=address  to the compile command to observe it
+#define BAKED_ARGS {"R", "12", "000000000000000000000000c08884a083828180808080800100000000000000", "pre:15", "ReadVarU64", "drain"}
 // Native replay driver for coded_stream.h (real, unmodified header; public API only).
 //
 //   replay_kernels R <N> <hex stream bytes> <cmd>...     reader script
